@@ -103,7 +103,7 @@ func policies(rep *kit.Report) {
 		}
 	}
 	rep.Set("hash_residue_coverage", "all residues of fnv32a(key) mod n, n=1..6, verified at run time")
-	pols := []string{"random", "least_conn", "round_robin", "ip_hash", "uri_hash", "header X-Key", "first"}
+	pols := []string{"random", "least_conn", "round_robin", "ip_hash", "uri_hash", "header X-Key", "first", "header"} // (the last: no header named)
 	item := 0
 	for n := 1; n <= maxN; n++ {
 		var names []string
@@ -140,6 +140,10 @@ func policies(rep *kit.Report) {
 				}
 				// a fresh upstream per state vector so that round-robin counters start from zero
 				ups, err := upstreams(text)
+				if err != nil && pol == "header" {
+					local["header-without-a-name/rejected-by-the-parser"]++
+					break // a policy that cannot select is refused when the block is read: nothing to explore
+				}
 				if err != nil {
 					rep.Broken("upstream parse: %v", err)
 				}
@@ -334,6 +338,9 @@ func policies(rep *kit.Report) {
 								kind = "first-order"
 							}
 							pname := strings.Fields(pol)[0]
+							if pol == "header" {
+								pname = "header-without-a-name"
+							}
 							sig := fmt.Sprintf("C05/policy/%s/%s", pname, kind)
 							if strings.Contains(est.FirstFail.Failure, "nil although") {
 								sig = fmt.Sprintf("C05/policy/%s/nil-with-available/n=%d", pname, n)
